@@ -12,6 +12,7 @@ prop(
         dict(run="^TestPropKnownClasses$",
              quick=dict(checks=16000, shards=16, timeout=600),
              thorough=dict(checks=800000, shards=16, timeout=7200)),
+        dict(run="^$", fuzz="FuzzPositions", thorough=dict(fuzztime="420s", timeout=1200)),
     ],
     rule="generated rule documents (ruledoc x yamlstyle: plain/single/double quoted, literal/folded with every chomping indicator, multi-line "
          "plain/quoted, flow maps, comments, blank lines, indentation 1-6, strict / relaxed list / wrapped / YAML-in-block-scalar layouts); for every "
